@@ -57,8 +57,10 @@ package db
 //@ spec func validName(name string) bool = len(name) > 0 && len(name) <= 256 && !containsS(name, "_")
 
 //@ func (*LDBBucket).subBucket
+//@   modifies nothing
 //@   ensures only-valid-names: err == nil ==> validName(name)
-//@   ensures child-of-this-bucket: err == nil ==> result0 != nil && result0.tx == b.tx && result0.name == name && result0.depth == b.depth + 1 && result0.pathLen == len(result0.path) && result0.path == lastresult("joinBucketPath")
+//@   ensures child-of-this-bucket: err == nil ==> result0 != nil && result0.tx == b.tx && result0.name == name && result0.depth == b.depth + 1 && result0.pathLen == len(result0.path)
+//@   ensures child-path-is-the-joined-components: err == nil ==> result0.path == lastresult("joinBucketPath")
 //@   assert-at call Split parent-path-split-at-the-separator: arg0 == b.path && arg1 == "_"
 //@   assert-at call Itoa depth-component-is-the-child-depth: arg0 == b.depth + 1
 //@   assert-at call joinBucketPath child-path-is-new-depth-then-parent-names-then-name: len(arg0) == len(lastresult("Split")) + 1 && arg0[0] == lastresult("Itoa") && arg0[len(arg0) - 1] == name && (forall j int :: 1 <= j && j < len(lastresult("Split")) ==> arg0[j] == lastresult("Split")[j])
@@ -75,6 +77,8 @@ package db
 
 //@ func deleteBucket
 //@   requires pathOK(b)
+//@   modifies elems(string)
+//@   loop * invariant bucket-unchanged: pathOK(b) && b.depth == old(b.depth) && b.path == old(b.path)
 //@   ensures top-level-buckets-are-never-deleted: old(b.depth) == 1 ==> err != nil
 //@   assert-at call BytesPrefix scans-exactly-path-plus-separator: len(arg0) == len(b.path) + 1 && (forall j int :: 0 <= j && j < len(b.path) ==> arg0[j] == b.path[j]) && arg0[len(b.path)] == 95
 //@   assert-at call NewIterator iterates-this-transaction-over-that-prefix: arg0 == b.tx.tr && arg1 == lastresult("BytesPrefix")
@@ -83,6 +87,11 @@ package db
 
 //@ func (*LDBBucket).Bucket
 //@   requires b.tx != nil
+//@   modifies nothing
+//@   ensures found-bucket-is-a-well-formed-child: result != nil ==> pathOK(unbox("*LDBBucket", result))
+//@   ensures found-bucket-same-tx: result != nil ==> unbox("*LDBBucket", result).tx == b.tx
+//@   ensures found-bucket-depth: result != nil ==> unbox("*LDBBucket", result).depth == b.depth + 1
+//@   ensures found-bucket-type: result != nil ==> dyntype(result) == typeid("*LDBBucket")
 //@   assert-at call Get looked-up-under-the-meta-key: arg0 == b.tx.tr && len(arg1) == 2 + len(lastresult("subBucket").path) && arg1[0] == 98 && arg1[1] == 95 && (forall j int :: 0 <= j && j < len(lastresult("subBucket").path) ==> arg1[2 + j] == lastresult("subBucket").path[j])
 
 //@ func (*LDBBucket).DeleteBucket
@@ -110,7 +119,8 @@ package db
 
 //@ func (*LDBReadBucket).subBucket
 //@   ensures only-valid-names: err == nil ==> validName(name)
-//@   ensures child-of-this-bucket: err == nil ==> result0 != nil && result0.ldb == b.ldb && result0.name == name && result0.depth == b.depth + 1 && result0.pathLen == len(result0.path) && result0.path == lastresult("joinBucketPath")
+//@   ensures child-of-this-bucket: err == nil ==> result0 != nil && result0.ldb == b.ldb && result0.name == name && result0.depth == b.depth + 1 && result0.pathLen == len(result0.path)
+//@   ensures child-path-is-the-joined-components: err == nil ==> result0.path == lastresult("joinBucketPath")
 //@   assert-at call Split parent-path-split-at-the-separator: arg0 == b.path && arg1 == "_"
 //@   assert-at call Itoa depth-component-is-the-child-depth: arg0 == b.depth + 1
 //@   assert-at call joinBucketPath child-path-is-new-depth-then-parent-names-then-name: len(arg0) == len(lastresult("Split")) + 1 && arg0[0] == lastresult("Itoa") && arg0[len(arg0) - 1] == name && (forall j int :: 1 <= j && j < len(lastresult("Split")) ==> arg0[j] == lastresult("Split")[j])
@@ -125,3 +135,7 @@ package db
 //@   ensures read-only: err != nil
 //@ func (*LDBReadBucket).DeleteBucket
 //@   ensures read-only: err != nil
+
+//@ func (*LDBBucket).BucketNames
+//@   requires b.tx != nil
+//@   modifies elems(string)
